@@ -117,6 +117,7 @@ type presentation struct {
 	CRLF         bool
 	NoTrailingNL bool
 	QuoteAll     bool
+	BlankLines   bool // an empty line after the header and between rows (skipped by CSV readers, not a row)
 }
 
 func (p presentation) String() string {
@@ -181,7 +182,11 @@ func renderCSV(t *table, p presentation) []byte {
 		row := row
 		lines = append(lines, line(func(i int) string { return row[i] }, fmt.Sprintf("junk %d, \"q\"", r)))
 	}
-	sb.WriteString(strings.Join(lines, nl))
+	if p.BlankLines {
+		sb.WriteString(strings.Join(lines, nl+nl))
+	} else {
+		sb.WriteString(strings.Join(lines, nl))
+	}
 	if !p.NoTrailingNL {
 		sb.WriteString(nl)
 	}
@@ -219,7 +224,13 @@ func renderFeed(m *feedModel, p presentation) []byte {
 		members = append(members, rawMember{t.File, renderCSV(t, p)})
 	}
 	if p.ExtraFile {
-		members = append(members, rawMember{"feed_info.txt", []byte("feed_publisher_name,feed_lang\nsomeone,en\n")}, rawMember{"stops.txt.bak", []byte("not,a,table\n")})
+		members = append(members, rawMember{"feed_info.txt", []byte("feed_publisher_name,feed_lang\nsomeone,en\n")}, rawMember{"stops.txt.bak", []byte("not,a,table\n")},
+			// members in sub-folders whose base names are those of supported tables are unknown extra files too
+			rawMember{"backup/", nil},
+			rawMember{"backup/stops.txt", []byte("stop_id,stop_name\nOLD1,old stop\nOLD2,older stop\n")},
+			rawMember{"backup/shapes.txt", []byte("shape_id,shape_pt_lat,shape_pt_lon,shape_pt_sequence\nOLDSHAPE,1,2,3\n")},
+			rawMember{"old/agency.txt", []byte("agency_id,agency_name,agency_url,agency_timezone\nOLDA,old,http://old,Asia/Tokyo\n")},
+			rawMember{"Stops.TXT", []byte("stop_id\nUPPER\n")})
 	}
 	if p.ReverseFiles {
 		for i, j := 0, len(members)-1; i < j; i, j = i+1, j-1 {
